@@ -241,6 +241,40 @@ theorem c02_ptr_wfB_sound (st : St) (hb : wfB st = true) : WF st := by
     simp only [ht, Bool.and_eq_true, List.all_eq_true, decide_eq_true_eq] at hb
     exact ⟨t, reprB_sound hb.1.1, nodupB_sound hb.1.2, hb.2⟩
 
+/-! search-tree order at the pointer level -/
+
+/-- C02: every operation that returns keeps the in-order keys strictly ascending (lawful comparator) -/
+theorem c02_ptr_step_ordered_of (cmpF : Int → Int → Int) (hLaw : Ekit.RB.LawfulCmp cmpF) (hFix : FixSpec cmpF) (fuel : Nat)
+    (st : St) (op : POp)
+    (r : Val) (st' : St) (hW : OrdWF cmpF st) (h : op.run cmpF fuel st = .ok (r, st')) : OrdWF cmpF st' := by
+  cases op with
+  | add k v => exact ordwf_add cmpF hLaw fuel k v st r st' hW h
+  | delete k => exact ordwf_delete cmpF hLaw hFix fuel k st r st' hW h
+  | find k => exact ordwf_find cmpF fuel k st r st' hW h
+  | set k v => exact ordwf_set cmpF fuel k v st r st' hW h
+
+theorem c02_ptr_reachable_ordered_of (cmpF : Int → Int → Int) (hLaw : Ekit.RB.LawfulCmp cmpF) (hFix : FixSpec cmpF)
+    (fuel : Nat) (ops : List POp) : ∀ st st', OrdWF cmpF st → runOps cmpF fuel st ops = some st' → OrdWF cmpF st' := by
+  induction ops with
+  | nil => intro st st' hW h; simp [runOps] at h; subst h; exact hW
+  | cons op ops ih =>
+    intro st st' hW h
+    simp only [runOps] at h
+    cases h1 : op.run cmpF fuel st with
+    | error e => simp [h1] at h
+    | ok r1 =>
+      obtain ⟨r, st1⟩ := r1
+      rw [h1] at h
+      exact ih st1 st' (c02_ptr_step_ordered_of cmpF hLaw hFix fuel st op r st1 hW h1) h
+
+/-- C02: after any history from `NewRBTree`, the keys met by an in-order walk along the child pointers are strictly
+    ascending under the comparator ("keys strictly ascending in-order"), for every lawful comparator -/
+theorem c02_ptr_history_ordered_of (cmpF : Int → Int → Int) (hLaw : Ekit.RB.LawfulCmp cmpF) (hFix : FixSpec cmpF)
+    (fuel : Nat) (ops : List POp) (st : St) (h : runOps cmpF fuel newTree ops = some st) :
+    ∃ t, Holds st t ∧ (t.addrs.map fun a => (st.h a).key).Pairwise fun x y => cmpF x y < 0 :=
+  c02_ptr_reachable_ordered_of cmpF hLaw hFix fuel ops newTree st
+    ⟨.leaf, ⟨by simp [Repr, newTree], by simp [PT.addrs], by simp [PT.addrs]⟩, by simp [Ordered, keysOf, PT.addrs]⟩ h
+
 /-! non-vacuity: that histories run to completion (so that `runOps … = some st` is satisfiable) is what the trace acceptor
     `Driver/Rbptr.lean` establishes on every check: it runs `call cmpF procs` on ~25 000 operations per run and every one
     returns `.ok`; a kernel `decide` of the interpreter on a closure-represented heap is too expensive to keep here. -/
